@@ -102,6 +102,8 @@ mod imp {
         pub cancelled: Vec<usize>,
         /// fixpoint programs: what the members' memos record at the end of the round
         pub memo_infos: Vec<MemoInfo>,
+        /// ... and right after the round's write returned, before any request of the new revision
+        pub memo_infos_pre: Vec<MemoInfo>,
     }
 
     fn reader_body(db: SimDatabase, reqs: Vec<Req>, writer_round: bool, ti: usize) -> Vec<Outc> {
@@ -245,6 +247,9 @@ mod imp {
                 }
             }
             log.post = Some(world.clone());
+            if round.writer.is_some() && case.prog.is_cyclic() && !case.prog.nodes.iter().any(|n| n.kind == Kind::Fb) {
+                log.memo_infos_pre = (case.prog.blk_lo as usize..case.prog.blk_hi as usize).filter_map(|x| memo_info(&db, x)).collect();
+            }
             // verification by the main thread (single handle left): everything must be usable
             fault::disarm();
             // (not after a round that only performs a joined write: the next round must find the
@@ -356,14 +361,25 @@ mod imp {
             'outer: for (ri, log) in logs.iter().enumerate() {
                 let Some(post) = log.post.as_ref() else { continue };
                 let cr = crate::refcyc::CycRef::solve(prog, post);
-                for r0 in 0..ri {
-                    let mut written = BTreeSet::new();
-                    for round in &conc.rounds[r0 + 1..=ri] {
+                for r0 in 0..=ri {
+                    // end-of-round state of an earlier round against the writes after it; the state
+                    // right after round r0's own write (before any request of the new revision)
+                    // against that write and the later ones
+                    let mut written_after = BTreeSet::new();
+                    let mut written_from = BTreeSet::new();
+                    for (k, round) in conc.rounds[..=ri].iter().enumerate() {
                         if let Some(WriterOp::SetIn { i, f, .. }) = &round.writer {
-                            written.insert((*i as usize, *f as usize));
+                            if k > r0 {
+                                written_after.insert((*i as usize, *f as usize));
+                            }
+                            if k >= r0 {
+                                written_from.insert((*i as usize, *f as usize));
+                            }
                         }
                     }
-                    if !crate::refcyc::incomplete_participants(&cr, &logs[r0].memo_infos, &written).is_empty() {
+                    let hit_post = r0 < ri && !crate::refcyc::incomplete_participants(&cr, &logs[r0].memo_infos, &written_after).is_empty();
+                    let hit_pre = !crate::refcyc::incomplete_participants(&cr, &logs[r0].memo_infos_pre, &written_from).is_empty();
+                    if hit_post || hit_pre {
                         d12_from = Some(ri);
                         break 'outer;
                     }
